@@ -288,7 +288,7 @@ def progCmd (env : Env) (d : Dict) : R Cmd := do
     else if (pat.map truthyD).getD false then
       match pat with
       | some (.i v) =>
-        if v < 0 then otherErr   -- get_bytes_cnt_of_int never returns on a negative value (not modelled)
+        if v < 0 then spsdkErr   -- "Data word 1 must not be negative"
         else if bytesCnt v.toNat ≤ 4 then .ok (v, 0) else spsdkErr
       | _ => spsdkErr
     else spsdkErr)
